@@ -62,7 +62,7 @@ func c16Bytes(name string) []byte {
 // c16Run drives a store and the abstract model through K symbolic operations.
 func c16Run(store quickfix.MessageStore, reopen func() quickfix.MessageStore, pfx string) {
 	model := &c16Model{N: 1, T: 1, last: 9}
-	K := 3
+	K := 3 + verifTier()
 	nops := 8
 	for k := 0; k < K; k++ {
 		op := verifConc(ndInt("op", 0, nops-1))
